@@ -480,6 +480,8 @@ class Bus (objects.DBusObject):
         }
 
         for item in rule.split(','):
+            if not item:
+                continue  # a rule without constraints matches everything
             k, v = item.split('=')
 
             value = v[1:-1]
